@@ -279,6 +279,18 @@ impl VHDLFormatter<'_> {
             buffer.push_whitespace();
         }
         self.format_subtype_indication(&mode.subtype_indication, buffer);
+        if mode.bus {
+            let subtype = &mode.subtype_indication;
+            let subtype_end_token = subtype
+                .constraint
+                .as_ref()
+                .map_or(subtype.type_mark.span.end_token, |constraint| {
+                    constraint.span.end_token
+                });
+            buffer.push_whitespace();
+            // bus
+            self.format_token_id(subtype_end_token + 1, buffer);
+        }
         self.format_default_expression(mode.expression.as_ref(), buffer);
     }
 }
@@ -360,6 +372,15 @@ mod tests {
         check_port("signal foo: view (bar)");
         check_port("signal foo: view bar of baz");
         check_port("signal foo: view (bar) of baz");
+    }
+
+    #[test]
+    fn format_signal_with_bus_kind() {
+        check_port("signal foo: std_logic bus");
+        check_port("foo: inout std_logic bus := '0'");
+        check_port("signal foo: out std_logic_vector(3 downto 0) bus");
+        check_port("signal foo: resolved integer range 0 to 3 bus := 1");
+        check_port("signal foo: rec_t(elem(1 to 2)) bus");
     }
 
     #[test]
